@@ -1,6 +1,7 @@
 import Carquet.Proofs.Writer
 import Carquet.Proofs.WriterLayout
 import Carquet.Proofs.WriterPages
+import Carquet.Proofs.WriterTable
 import Carquet.Impl.FileReal
 /-
 C05 (envelope part) — every file the writer reports complete has the Parquet envelope.
@@ -9,6 +10,7 @@ Statements only; lemmas in Proofs/Writer.lean.  Generic in the byte-level compon
 -/
 namespace Carquet.Properties.C05
 open Carquet.Impl.Writer Carquet.Proofs.Writer Carquet.Proofs.WriterLayout Carquet.Proofs.WriterPages
+open Carquet.Proofs.WriterTable
 
 /-- For every schema, options and write history (any batches, any row-group boundaries, also
 calls that failed in between): if `carquet_writer_close` returns OK, the stream received
@@ -101,10 +103,62 @@ theorem C05_pages_chain (D : Deps) (cols : List Col) (codec pageSize : Nat) (cre
   obtain ⟨c1, _, c3⟩ := close_layout D _ hA hok'
   have hh : (closing D (stateAfter D { cols := cols, codec := codec, pageSize := pageSize, createdBy := createdBy } ops)).headerWritten = true := by
     unfold closing; rw [flushRowGroup_header]; exact (allInv_ensureHeader _ hA).2
-  obtain ⟨_, ⟨gs, g1, g2⟩, _⟩ := hP
+  obtain ⟨_, ⟨g1, g2, _⟩, _⟩ := hP
   rw [r1, c1, g1 hh]
   generalize closing D (stateAfter D { cols := cols, codec := codec, pageSize := pageSize, createdBy := createdBy } ops) = W' at *
-  exact ⟨⟨W'.cols, W'.createdBy, W'.totalRows, W'.rowGroups⟩, gs, by simp [footerOf, List.append_assoc], c3, g2⟩
+  exact ⟨⟨W'.cols, W'.createdBy, W'.totalRows, W'.rowGroups⟩, W'.pagesDone, by simp [footerOf, List.append_assoc], c3, g2⟩
+
+/-- **What the pages contain** (writer half of "recovers exactly the table that was written").
+For every schema, options and history whose batches are well formed (`HistWF`: the caller's
+arrays hold what the counts say) and in which EVERY call and the close returned OK: the file is
+`PAR1 ++ pages ++ footer(md) ++ len ++ PAR1` as in `C05_pages_chain`, every page record is the
+finalisation of the page-builder content it carries — body = rep levels ++ def levels ++ PLAIN
+values of exactly that content, header row count, statistics (`GroupOf` / `pageRecOf`) — and
+the contents of the pages, concatenated chunk by chunk, are exactly the table the history
+denotes (`tableOf`, defined from the batches alone: rows, levels and dense values per column
+per row group, in call order). -/
+theorem C05_written_table (D : Deps) (cols : List Col) (codec pageSize : Nat) (createdBy : String)
+    (ops : List Op) (hwf : HistWF ops)
+    (hok : ∀ s ∈ (fileOf D cols codec pageSize createdBy ops).2, s = .ok) :
+    ∃ (md : FooterData) (gs : List (List (List PageRec))),
+      (fileOf D cols codec pageSize createdBy ops).1 =
+        magic ++ dataBytes D gs ++ D.footer md ++ le32 (D.footer md).length ++ magic ∧
+      md.cols = cols ∧ GroupsAt md.rowGroups 4 ∧ AllGroups D codec md.rowGroups gs ∧
+      (∀ g ∈ gs, GroupOf D codec cols g) ∧
+      gs.map (·.map pagesData) = tableOf cols ops := by
+  unfold fileOf writesOf at hok ⊢
+  simp only at hok ⊢
+  have hinit := allInv_init cols codec pageSize createdBy
+  obtain ⟨r1, _⟩ := run_eq_close D ops { cols := cols, codec := codec, pageSize := pageSize, createdBy := createdBy } []
+  obtain ⟨a1, a2⟩ := run_all_ok D ops _ [] hok
+  have hA := allInv_stateAfter D ops _ hinit
+  have hP := pinv_closing D codec _ (pinv_stateAfter D codec ops _ (pinv_init D cols codec pageSize createdBy) hinit) hA
+  obtain ⟨t1, t2, t3, t4⟩ := stateAfter_refines D ops _ (tinv_init D cols codec pageSize createdBy) hwf a1
+  have hcl : (step D (stateAfter D { cols := cols, codec := codec, pageSize := pageSize, createdBy := createdBy } ops) .newRowGroup).2 = .ok := by
+    rw [← close_status]; exact a2
+  obtain ⟨s1, s2, s3, s4⟩ := step_refines D _ .newRowGroup t1 (fun b hb => by cases hb) hcl
+  obtain ⟨c1, _, c3⟩ := close_layout D _ hA a2
+  have hh : (closing D (stateAfter D { cols := cols, codec := codec, pageSize := pageSize, createdBy := createdBy } ops)).headerWritten = true := by
+    unfold closing; rw [flushRowGroup_header]; exact (allInv_ensureHeader _ hA).2
+  obtain ⟨_, ⟨g1, g2, _⟩, _⟩ := hP
+  have hstep : (step D (stateAfter D { cols := cols, codec := codec, pageSize := pageSize, createdBy := createdBy } ops) .newRowGroup).1 =
+      closing D (stateAfter D { cols := cols, codec := codec, pageSize := pageSize, createdBy := createdBy } ops) := rfl
+  rw [hstep] at s1 s2 s3 s4
+  rw [r1, c1, g1 hh]
+  have htab : (closing D (stateAfter D { cols := cols, codec := codec, pageSize := pageSize, createdBy := createdBy } ops)).pagesDone.map (·.map pagesData) =
+      tableOf cols ops := by
+    have := congrArg A.done s2
+    rw [t2, t3] at this
+    simpa [abs, tableOf] using this
+  have hcols : (closing D (stateAfter D { cols := cols, codec := codec, pageSize := pageSize, createdBy := createdBy } ops)).cols = cols := by
+    rw [s3, t3]
+  have hcodec : (closing D (stateAfter D { cols := cols, codec := codec, pageSize := pageSize, createdBy := createdBy } ops)).codec = codec := by
+    rw [s4, t4]
+  have hgo := s1.1
+  rw [hcols, hcodec] at hgo
+  generalize closing D (stateAfter D { cols := cols, codec := codec, pageSize := pageSize, createdBy := createdBy } ops) = W' at *
+  exact ⟨⟨W'.cols, W'.createdBy, W'.totalRows, W'.rowGroups⟩, W'.pagesDone, by simp [footerOf, List.append_assoc],
+    hcols, c3, g2, hgo, htab⟩
 
 /-- the same for the real components -/
 theorem C05_envelope_real (cols : List Col) (codec pageSize : Nat) (ops : List Op)
@@ -117,6 +171,26 @@ theorem C05_envelope_real (cols : List Col) (codec pageSize : Nat) (ops : List O
 example : (fileOf (Carquet.Impl.FileReal.deps []) [⟨"a", .int32, .optional, 0⟩, ⟨"b", .boolean, .required, 0⟩] 0 64 "Carquet"
     [.batch ⟨0, 3, some [1, 0, 1], [[1, 0, 0, 0], [2, 0, 0, 0]]⟩, .batch ⟨1, 3, none, [[1], [0], [1]]⟩, .newRowGroup,
      .batch ⟨0, 1, none, [[7, 0, 0, 0]]⟩, .batch ⟨1, 1, none, [[0]]⟩]).2.getLast? = some .ok := by
+  decide +kernel
+
+/-- non-vacuity of `C05_written_table`: the same history is well formed, all its calls return
+OK, and the table it denotes is the expected one (two row groups) -/
+example : HistWF [.batch ⟨0, 3, some [1, 0, 1], [[1, 0, 0, 0], [2, 0, 0, 0]]⟩, .batch ⟨1, 3, none, [[1], [0], [1]]⟩, .newRowGroup,
+     .batch ⟨0, 1, none, [[7, 0, 0, 0]]⟩, .batch ⟨1, 1, none, [[0]]⟩] := by
+  intro b hb
+  simp only [List.mem_cons, Op.batch.injEq, List.mem_nil_iff, or_false, reduceCtorEq, false_or] at hb
+  rcases hb with h | h | h | h <;> subst h <;> exact ⟨by decide, by intro ds h; cases h <;> rfl⟩
+
+example : ((fileOf (Carquet.Impl.FileReal.deps []) [⟨"a", .int32, .optional, 0⟩, ⟨"b", .boolean, .required, 0⟩] 0 64 "Carquet"
+    [.batch ⟨0, 3, some [1, 0, 1], [[1, 0, 0, 0], [2, 0, 0, 0]]⟩, .batch ⟨1, 3, none, [[1], [0], [1]]⟩, .newRowGroup,
+     .batch ⟨0, 1, none, [[7, 0, 0, 0]]⟩, .batch ⟨1, 1, none, [[0]]⟩]).2.all (· == .ok)) = true := by
+  decide +kernel
+
+example : tableOf [⟨"a", .int32, .optional, 0⟩, ⟨"b", .boolean, .required, 0⟩]
+    [.batch ⟨0, 3, some [1, 0, 1], [[1, 0, 0, 0], [2, 0, 0, 0]]⟩, .batch ⟨1, 3, none, [[1], [0], [1]]⟩, .newRowGroup,
+     .batch ⟨0, 1, none, [[7, 0, 0, 0]]⟩, .batch ⟨1, 1, none, [[0]]⟩] =
+    [[⟨3, [1, 0, 1], [], [[1, 0, 0, 0], [2, 0, 0, 0]]⟩, ⟨3, [], [], [[1], [0], [1]]⟩],
+     [⟨1, [1], [], [[7, 0, 0, 0]]⟩, ⟨1, [], [], [[0]]⟩]] := by
   decide +kernel
 
 end Carquet.Properties.C05
